@@ -999,7 +999,7 @@ func main() {
 	}
 	dS := genDict("ab", tokLen, "sorted", *seed)
 	dU := genDict("ab", tokLen, "shuffled", *seed)
-	header := "From Coq Require Import List ZArith NArith.\nImport ListNotations.\nFrom C13 Require Import Model CaseDefs.\n" +
+	header := "From Coq Require Import List ZArith NArith.\nImport ListNotations.\nFrom C13 Require Import Model ModelBlock CaseDefs.\n" +
 		"Definition dS : list bytes := " + dictCoq(dS) + ".\n" +
 		"Definition dU : list bytes := " + dictCoq(dU) + ".\n"
 	w, err := casefile.New(*out, "C13", header, 120)
